@@ -475,6 +475,7 @@ func caseTxRoot(c *vf.Ctx, i, K int) {
 		if bytes.Equal(types.CalculateTxsRootHash(l2), root0) {
 			a.count("txroot.duplicate_last_collides")
 			noteDup("txroot", i, n, root0)
+			a.viol("txroot/list-plus-copy-of-its-last-element-has-the-same-root", fmt.Sprintf("the transaction root of a list of %d txs equals the root of the same list with its last tx appended once more: %x", n, root0))
 		} else {
 			a.count("txroot.duplicate_last_differs")
 		}
